@@ -86,6 +86,12 @@ def atom_thunks():
         for v in (1, 2, 2.5):
             add(f"{nm} {v}", lambda mk=mk, v=v: mk(v))
     add("eq 'a'", lambda: eq_p("a"))
+    # canonically equivalent but different strings (NFD / NFC): == tells them apart, so must every atom
+    for mk, nm in ((eq_p, "eq"), (ne_p, "ne"), (ge_p, "ge"), (lt_p, "lt")):
+        add(f"{nm} 'cafe\\u0301'", lambda mk=mk: mk("cafe\u0301"))
+        add(f"{nm} 'caf\\u00e9'", lambda mk=mk: mk("caf\u00e9"))
+    add("in ('cafe\\u0301',)", lambda: in_p("cafe\u0301"))
+    add("not_in ('cafe\\u0301', 'a')", lambda: not_in_p("cafe\u0301", "a"))
     add("eq None", lambda: eq_p(None))
     add("ne None", lambda: ne_p(None))
     add("ne 'a'", lambda: ne_p("a"))
@@ -211,4 +217,4 @@ def composite_thunks(rng, atoms, n):
     return out
 
 
-PROBE_VALUES = [[0], [None], [""], [[]], (0,), {0}, [0, 0], (None, 0), [False], 0, 0.5, 1, 1.5, 2, 2.5, 3, 3.5, True, False, None, "a", "", "foo", "foobar", "bar", "FOO", "Foobar", "aaa", [], [1], [1, 2], (1,), (1, "a"), ("a", 1), (), {1}, {1, 2}, set(), {"a": 1}, {"a": 1, "b": "x"}, {}, {"b": 2}, {1: 1}]
+PROBE_VALUES = ["cafe\u0301", "caf\u00e9", [0], [None], [""], [[]], (0,), {0}, [0, 0], (None, 0), [False], 0, 0.5, 1, 1.5, 2, 2.5, 3, 3.5, True, False, None, "a", "", "foo", "foobar", "bar", "FOO", "Foobar", "aaa", [], [1], [1, 2], (1,), (1, "a"), ("a", 1), (), {1}, {1, 2}, set(), {"a": 1}, {"a": 1, "b": "x"}, {}, {"b": 2}, {1: 1}]
